@@ -12,7 +12,7 @@ RULE = ("lanelets from generated centre polylines (2..8 vertices, straight / cur
         "graph with >=1 edge")
 ANCHORS = ["Lanelet.interpolate_position", "Lanelet.merge_lanelets", "Lanelet.find_lanelet_successors_in_range",
            "Lanelet.find_lanelet_predecessors_in_range", "Lanelet._compute_polyline_cumsum_dist"]
-REQUIRED = ["lanelet.reduced-from-3d-after-its-length-was-asked", "interp.at-vertex", "interp.same-arc-length-after-moving-the-lanelet", "interp.zero", "interp.full-length", "interp.interior", "merge.pred-first",
+REQUIRED = ["search.started-from-a-copy-of-the-start-lanelet", "lanelet.reduced-from-3d-after-its-length-was-asked", "interp.at-vertex", "interp.same-arc-length-after-moving-the-lanelet", "interp.zero", "interp.full-length", "interp.interior", "merge.pred-first",
             "merge.suc-first", "merge.nonuniform-spacing", "graph.cyclic", "graph.diamond-or-merge", "graph.branching",
             "range.equal-to-partial-length", "pred-search", "succ-search", "graph.curved-lanelets", "poly.int-dtype", "graph.neighbour-list-not-ascending", "merge.link-predecessor-list-only", "merge.link-successor-list-only", "merge.via-all_lanelets_by_merging"]
 EXHAUSTIVE = {"quick": "all directed graphs without self loops on 1..3 nodes (as successor relations) x start node x "
@@ -323,6 +323,12 @@ def run(ctx):
             ctx.feature("graph.diamond-or-merge")
         for start in range(1, nn + 1):
             la = orig(start)
+            if (start + nn) % 2 == 1:
+                # the search is asked on a lanelet object that is a COPY of the network's one (networks store copies of the
+                # lanelets they are built from; users keep working with their own objects): it is the same lanelet by id
+                import copy as _cp
+                la = _cp.deepcopy(la)
+                ctx.feature("search.started-from-a-copy-of-the-start-lanelet")
             for direction, rel in (("succ", succ), ("pred", pred)):
                 rel1 = {k + 1: v for k, v in rel.items()}
                 firsts = rel1[start]
